@@ -229,70 +229,126 @@ def _is_cur_match(a):
 
 @only(STREAM_CONFIGS)
 def r08_2(cx):
+    """Every chunk that next() returns takes its range from one of the four range helpers evaluated for the current state, and
+    that range is accounted in buffer_reported_pos exactly once, after the helper ran: one statement on the summaries of one pass
+    through the outer loop (each way to a return, with the calls and stores in order)."""
+    from acverif.sym import loop_rows, canon, cstr
     b = cx.body(NEXT)
-    sites = chunk_sites(b)
-    rep_stores = [(bi, si, val) for bi, si, tt, val, st in b.field_stores() if sf(tt, 'buffer_reported_pos')]
+    loops = b.loops()
+    if not loops:
+        cx.bad('R08.2', b, 'loop', 'the chunk loop of next() was not found')
+        return
+    outer = max(loops, key=lambda h: len(loops[h]))
+    rows = [r for r in loop_rows(cx.facts, b, outer) if r.end != 'diverge']
+    REPF = 'self.buffer_reported_pos'
+    GETTERS = ('get_non_match_chunk', 'get_pre_roll_non_match_chunk', 'get_eof_non_match_chunk')
+    why = {}
     seen = {}
-    used_rep = set()
-    for bi, si, variant, fields in sites:
-        bytes_t = expand_vars(b, fields.get('bytes'))
-        bt = peel(bytes_t)
-        ok = is_call(bt, r'core::ops::Index::index$') and is_call(peel(bt[2][0]), r'Buffer::buffer$') and sf(peel(bt[2][0])[2][0], 'buf')
-        if not ok:
-            cx.bad('R08.2', b, 'site:%s/bytes' % variant, 'chunk bytes are %s, expected buffer()[range]' % tstr(bytes_t, 200), line_of(b, bi, si))
+
+    def bad(key, msg):
+        why.setdefault(key, msg)
+
+    def cur_match(t):
+        t = canon(t)
+        return (is_call(t, r'StreamChunkIter::get_match$') and cstr(t[2][0]) == 'self') or \
+               (is_call(t, r'^automaton::get_match$') and [cstr(x) for x in t[2]] == ['self.aut', 'self.sid', '0', 'self.absolute_pos'])
+
+    def rlen_of(t):
+        t = canon(t)
+        if is_call(t, r'(ExactSizeIterator|Range(::<.*>)?|RangeInclusive)::len$') and len(t[2]) == 1:
+            return cstr(t[2][0])
+        if t[0] == 'op' and t[1] == 'Sub' and t[2][0] == 'f' and t[3][0] == 'f' and t[2][2] == 'end' and t[3][2] == 'start' and cstr(t[2][1]) == cstr(t[3][1]):
+            return cstr(t[2][1])
+        return None
+    for r in rows:
+        eff = []
+        for e in r.effects:
+            if e[0] == 'call':
+                eff.append(('call', canon(e[1])))
+            elif e[0] == 'store' and cstr(canon(e[1])) == REPF:
+                eff.append(('rep', canon(e[2])))
+        reps = [(i, v) for i, (k, v) in enumerate(eff) if k == 'rep']
+        ret = canon(r.ret) if (r.end == 'return' and r.ret is not None) else None
+        chunk = None
+        if ret is not None and is_agg(ret, r'Option$', 'Some') and is_agg(ret[3]['0'], r'Result$', 'Ok') and is_agg(ret[3]['0'][3]['0'], r'automaton::StreamChunk$'):
+            chunk = ret[3]['0'][3]['0']
+        # the roll adjustment: reported -= len - min, directly before the roll
+        acc = None
+        prev = REPF
+        for i, v in reps:
+            isroll = v[0] == 'op' and v[1] == 'Sub' and cstr(v[2]) == REPF and cstr(v[3]) == 'Sub(core::slice::len(util::buffer::Buffer::buffer(self.buf)), self.buf.min)'
+            if isroll:
+                after = [c for k, c in eff[i + 1:] if k == 'call' and re.search(r'Buffer::(roll|fill)$|StreamChunkIter::get_', short(c[1]))]
+                if not after or not is_call(after[0], r'Buffer::roll$'):
+                    bad('reported-writers', 'the roll adjustment of buffer_reported_pos is not followed by buf.roll()')
+                prev = cstr(v)
+                continue
+            if acc is not None:
+                bad('reported-writers', 'buffer_reported_pos is advanced twice on one way through next()')
+            acc = (i, v, prev)
+            prev = cstr(v)
+        rolls = [i for i, (k, c) in enumerate(eff) if k == 'call' and is_call(c, r'Buffer::roll$')]
+        for i in rolls:
+            if not any(j < i and eff[j][0] == 'rep' for j in range(len(eff))):
+                bad('reported-writers', 'buf.roll() without the adjustment reported -= len - min')
+        if chunk is None:
+            if acc is not None:
+                bad('reported-writers', 'buffer_reported_pos is advanced on a way through next() that returns no chunk')
             continue
-        R = peel_all(bt[2][1])          # fully expanded range expression: identifies the helper call site
-        helper = None
+        variant = chunk[2]
+        fields = chunk[3]
+        bt = canon(fields.get('bytes'))
+        while bt[0] in ('ref', 'deref') and isinstance(bt[-1], tuple):
+            bt = bt[-1]
+        if not (is_call(bt, r'core::ops::Index::index$') and cstr(bt[2][0]) == 'util::buffer::Buffer::buffer(self.buf)'):
+            bad('site:%s/bytes' % variant, 'chunk bytes are %s, expected buffer()[range]' % tstr(bt, 160))
+            continue
+        R = bt[2][1]
         hc = None
         if R[0] == 'f' and R[1][0] == 'dc' and R[1][2] == 'Some' and is_call(R[1][1], r'StreamChunkIter::get_\w+$'):
             hc = R[1][1]
         elif is_call(R, r'StreamChunkIter::get_match_chunk$'):
             hc = R
-        hargs = []
-        if hc is not None:
-            helper = short(hc[1]).rsplit('::', 1)[1]
-            hargs = [peel_all(a) for a in hc[2]]
-        good_helper = (variant == 'NonMatch' and helper in ('get_non_match_chunk', 'get_pre_roll_non_match_chunk', 'get_eof_non_match_chunk')) or (variant == 'Match' and helper == 'get_match_chunk')
-        if good_helper:
-            good_helper = is_var(hargs[0], 'self') and all(_is_cur_match(a) for a in hargs[1:])
-        cx.report('R08.2', b, 'site:%s/range' % (helper or variant), good_helper,
-                  '%s chunk range comes from %s' % (variant, helper) if good_helper else '%s chunk takes its range from %s' % (variant, tstr(R, 160)), line_of(b, bi, si))
+        helper = short(hc[1]).rsplit('::', 1)[1] if hc is not None else None
+        good = hc is not None and ((variant == 'NonMatch' and helper in GETTERS) or (variant == 'Match' and helper == 'get_match_chunk'))
+        if good:
+            good = cstr(hc[2][0]) == 'self' and all(cur_match(a) for a in hc[2][1:])
+        if good and variant == 'NonMatch':
+            d = r.cond(lambda c: canon(c)[0] == 'discr' and cstr(canon(c)[1]) == cstr(hc))
+            good = d == 1
+        key = helper if good else variant
+        if not good:
+            bad('site:%s/range' % key, '%s chunk takes its range from %s' % (variant, tstr(R, 160)))
+            seen[None] = seen.get(None, 0) + 1
+            continue
         seen[helper] = seen.get(helper, 0) + 1
-        # accounting: REP += range.len() for the range of the same helper call site, dominating the site, after the helper ran
-        acc = []
-        for sb, ssi, val in rep_stores:
-            v = snorm(expand_vars(b, val))
-            if v[0] == 'op' and v[1] == 'Add' and v[2] == REP and v[3][0] == 'rlen' and peel_all(v[3][1]) == snorm(R):
-                acc.append(sb)
-        hblk = hc[3] if hc is not None else None
-        okacc = len(acc) == 1 and b.dominates(acc[0], bi) and hblk is not None and b.dominates(hblk, acc[0])
+        # accounting
+        hidx = [i for i, (k, c) in enumerate(eff) if k == 'call' and cstr(c) == cstr(hc)]
+        okacc = acc is not None and bool(hidx) and acc[0] > hidx[-1] and acc[1][0] == 'op' and acc[1][1] == 'Add' and \
+            ((rlen_of(acc[1][2]) == cstr(R) and cstr(acc[1][3]) == REPF) or (rlen_of(acc[1][3]) == cstr(R) and cstr(acc[1][2]) == REPF))
         if okacc:
-            used_rep.add(acc[0])
-        cx.report('R08.2', b, 'site:%s/accounting' % (helper or variant), okacc,
-                  'buffer_reported_pos += range.len() with the same range precedes the return' if okacc else 'the returned range is not accounted in buffer_reported_pos exactly once before the return', line_of(b, bi, si))
+            later = [c for k, c in eff[acc[0] + 1:] if k == 'call' and re.search(r'Buffer::(roll|fill)$', short(c[1]))]
+            okacc = not later
+        if not okacc:
+            bad('site:%s/accounting' % helper, 'the returned range is not accounted in buffer_reported_pos exactly once (reported += range.len(), after the helper ran)')
         if variant == 'Match':
-            m = expand_vars(b, fields.get('mat'))
-            okm = _is_cur_match(m) and (not hargs[1:] or m == hargs[1])
-            cx.report('R08.2', b, 'site:Match/mat', okm, 'Match chunk carries mat = self.get_match(), the match its range was computed for' if okm else 'Match chunk carries %s' % tstr(m, 100), line_of(b, bi, si))
-            # only after the non-match chunk: cut the non-Some edges of get_non_match_chunk(self, mat)
-            gs = discr_gates(b, lambda x: is_call(expand_vars(b, x), r'StreamChunkIter::get_non_match_chunk$'))
-            cut = []
-            for gb, x, arms, oth in gs:
-                some_targets = {tg for v, tg in arms.items() if v == 1}
-                for s in b.succ(gb):
-                    if s not in some_targets:
-                        cut.append((gb, s))
-            oko = bool(gs) and not reachable_without(b, [bi], cut)
-            cx.report('R08.2', b, 'site:Match/after-non-match', oko, 'the match chunk is emitted only when no non-match bytes precede it in the buffer' if oko else 'the match chunk can be emitted while unreported bytes precede it', line_of(b, bi, si))
-    for h in ('get_non_match_chunk', 'get_pre_roll_non_match_chunk', 'get_eof_non_match_chunk', 'get_match_chunk'):
-        cx.report('R08.2', b, 'sites:' + h, seen.get(h, 0) == 1, 'exactly one return site uses %s' % h if seen.get(h, 0) == 1 else '%d return sites use %s (expected 1)' % (seen.get(h, 0), h))
-    extra = [k for k in seen if k not in HELPER_SPECS]
-    cx.report('R08.2', b, 'sites:foreign', not extra, 'every chunk return takes its range from a chunk helper' if not extra else 'chunk returned from a foreign range source: %s' % extra)
-    # inventory of stores to buffer_reported_pos: 4 accounted + the roll adjustment
-    other = [(sb, val) for sb, ssi, val in rep_stores if sb not in used_rep]
-    okr = len(other) == 1 and affine_str(snorm(expand_vars(b, other[0][1]))) == affine_str(('op', 'Sub', REP, sub(LEN, MIN)))
-    cx.report('R08.2', b, 'reported-writers', okr, 'buffer_reported_pos is written only by the four accounted returns and the roll adjustment reported -= len - min' if okr else
-              'unexpected writes to buffer_reported_pos: %s' % [tstr(snorm(v), 120) for _, v in other])
+            if not (cur_match(fields.get('mat')) and (len(hc[2]) < 2 or cstr(canon(fields.get('mat'))) == cstr(hc[2][1]))):
+                bad('site:Match/mat', 'Match chunk carries %s' % tstr(canon(fields.get('mat')), 100))
+            nm = r.cond(lambda c: canon(c)[0] == 'discr' and is_call(canon(c)[1], r'StreamChunkIter::get_non_match_chunk$') and cstr(canon(c)[1][2][0]) == 'self' and all(cur_match(a) for a in canon(c)[1][2][1:]))
+            if nm is None or nm == 1:
+                bad('site:Match/after-non-match', 'the match chunk can be emitted while unreported non-match bytes precede it')
+    for h in GETTERS + ('get_match_chunk',):
+        v = 'NonMatch' if h != 'get_match_chunk' else 'Match'
+        k1 = 'site:%s/range' % h
+        cx.report('R08.2', b, k1, k1 not in why and seen.get(h, 0) >= 1, '%s chunk range comes from %s, evaluated for the current state' % (v, h) if (k1 not in why and seen.get(h, 0) >= 1) else why.get(k1, 'no return uses %s' % h))
+        k2 = 'site:%s/accounting' % h
+        cx.report('R08.2', b, k2, k2 not in why, 'buffer_reported_pos += range.len() with the same range, once, after the helper ran' if k2 not in why else why[k2])
+    for k, okmsg in (('site:Match/mat', 'Match chunk carries mat = self.get_match(), the match its range was computed for'),
+                     ('site:Match/after-non-match', 'the match chunk is emitted only when get_non_match_chunk found no non-match bytes before it')):
+        cx.report('R08.2', b, k, k not in why, okmsg if k not in why else why[k])
+    foreign = [k for k in why if k.startswith('site:NonMatch/') or k.startswith('site:Match/range') or k.endswith('/bytes')]
+    cx.report('R08.2', b, 'sites:foreign', not foreign, 'every chunk return takes its range from a chunk helper' if not foreign else '; '.join(why[k] for k in foreign)[:300])
+    cx.report('R08.2', b, 'reported-writers', 'reported-writers' not in why, 'buffer_reported_pos is written only by the accounted returns and by the roll adjustment reported -= len - min before buf.roll()' if 'reported-writers' not in why else why['reported-writers'])
 
 
 @only(STREAM_CONFIGS)
